@@ -592,7 +592,7 @@ def run(tier, seed, t0):
     for nm, fn, arg in (("c08_sanitize_names", sanitize_names, 4 if thorough else 3), ("c08_escaping", escaping, 5 if thorough else 4), ("c08_key_to_parts", key_parts, thorough), ("c08_lines", lines, thorough), ("c08_render", render, thorough)):
         try:
             fn(e3, arg)
-        except sym.Unsupported as ex:
+        except _e3.ENC_ERRORS as ex:
             e3.error(nm, "MIR->SMT encoding", ex)
     finish("C08", tier, seed, list(e3.res.obligations), t0, ASSUME + ["E3 callee models: " + ", ".join(sorted(e3.models))], sorted(e3.functions),
            explanation="MIR->SMT character-level encoding of the exporter's formatting functions against a strict exposition-format parser automaton")
